@@ -47,6 +47,8 @@ def _java(args, cwd, timeout, heap=None, props=None):
     if heap:
         cmd.append("-Xmx" + heap)
     cmd.append("-Xss64m")
+    # TLC unpacks its standard modules into java.io.tmpdir (tlc-<n>/): keep that inside the run's scratch directory
+    cmd.append("-Djava.io.tmpdir=" + cwd)
     for p in props or []:
         cmd.append("-D" + p)
     cmd += ["-cp", TLA_CP, "tlc2.TLC"] + args
